@@ -29,6 +29,7 @@ func c02(c *Ctx) {
 	sMatch(c, "R4/S-MATCH")
 	c04R1(c, "R5/C04.R1")
 	sInstallDurable(c, "R6/S-DURABLE")
+	c10R2(c, "R6/C10.R2")
 	c02R7(c, "R7")
 }
 
